@@ -67,7 +67,7 @@ End Upd.
 
 Section Wiring.
 Context {V L St R : Type}.
-Variable joint : list V -> L.
+Variable condf : list V -> nat -> V -> L.
 Variable point : St -> V.
 Variable reinit : nat -> (V -> L) -> St -> St.
 Variable trans : nat -> (V -> L) -> St -> R -> St.
@@ -76,9 +76,9 @@ Variable nst : nat -> nat.
 Notation ev := (@ev V L St).
 Notation gst := (@gst V St).
 Notation steps := (steps trans).
-Notation block_update := (block_update joint point reinit trans nst).
-Notation sweep := (sweep joint point reinit trans nst).
-Notation sample_n := (sample_n joint point reinit trans nst).
+Notation block_update := (block_update condf point reinit trans nst).
+Notation sweep := (sweep condf point reinit trans nst).
+Notation sample_n := (sample_n condf point reinit trans nst).
 
 (* n transitions of block i's sampler on target t, consuming rs j, rs (j+1), ... *)
 Fixpoint iter_trans (i : nat) (t : V -> L) (n j : nat) (rs : nat -> R) (s : St) : St :=
@@ -176,7 +176,7 @@ Proof.
   rewrite (proj1 (stage_prefix i (k - i))), <- (proj1 (stage_rest i)). now rewrite firstn_skipn.
 Qed.
 
-Definition tgt_at i := cond joint (cur_at i) i.
+Definition tgt_at i := condf (cur_at i) i.
 Definition start_at i (s : St) := reinit i (tgt_at i) s.
 Definition block_evs i (s : St) : list ev := snd (steps i (tgt_at i) (cur_at i) (nst i) 0 (rs i) (start_at i s)).
 Definition block_end i (s : St) : St := iter_trans i (tgt_at i) (nst i) 0 (rs i) (start_at i s).
@@ -243,8 +243,7 @@ Proof. unfold new_cur, new_ss. rewrite sweep_stage. apply stage_len. Qed.
 Theorem sweep_target_is_current_conditional : forall e, In e (snd (sweep rs st)) ->
   let i := e_blk e in
   i < k /\ e_cur e = firstn i new_cur ++ skipn i (g_cur st)
-  /\ e_tgt e = cond joint (e_cur e) i
-  /\ forall v, e_tgt e v = joint (firstn i new_cur ++ v :: skipn (S i) (g_cur st)).
+  /\ e_tgt e = condf (e_cur e) i.
 Proof.
   intros e He. rewrite sweep_stage in He.
   destruct (stage_events k (le_n k) e He) as (b & s & Hb & Hs & Hin).
@@ -252,11 +251,37 @@ Proof.
   apply (steps_events b (tgt_at b) (cur_at b) (rs b) (start_at b s) (nst b) 0 (start_at b s) e eq_refl) in Hin.
   destruct Hin as (H1 & H2 & H3 & H4 & H5). cbn zeta. rewrite H1.
   assert (Hc : e_cur e = firstn b new_cur ++ skipn b (g_cur st)) by (rewrite H2; apply cur_at_spec; lia).
-  split; [exact Hb|]. split; [exact Hc|]. split; [rewrite H3, H2; reflexivity|].
-  intros v. rewrite H3. unfold tgt_at, cond. f_equal. rewrite cur_at_spec by lia.
+  split; [exact Hb|]. split; [exact Hc|]. rewrite H3, H2; reflexivity.
+Qed.
+
+(* the snapshot logged with an event has an entry for the event's block (its value before the update) *)
+Lemma sweep_event_valid : forall e, In e (snd (sweep rs st)) ->
+  nth_error (e_cur e) (e_blk e) = nth_error (g_cur st) (e_blk e) /\ e_blk e < length (e_cur e).
+Proof.
+  intros e He. destruct (sweep_target_is_current_conditional e He) as (Hb & Hc & Ht). cbn zeta in *.
+  set (b := e_blk e) in *.
   destruct (nth_error (g_cur st) b) as [x|] eqn:Ex; [|apply nth_error_None in Ex; fold k in Ex; lia].
-  rewrite (firstn_skipn_nth _ _ _ Ex).
   assert (Hl : length (firstn b new_cur) = b) by (rewrite firstn_length, (proj1 sweep_lengths); lia).
+  split.
+  - rewrite Hc, nth_error_app2 by lia. rewrite Hl, Nat.sub_diag. rewrite (firstn_skipn_nth _ _ _ Ex). reflexivity.
+  - rewrite Hc, app_length, Hl, (firstn_skipn_nth _ _ _ Ex). simpl. lia.
+Qed.
+
+(* with the C01 one-step law for the conditioning operation (conditioning block i's joint on the others and evaluating
+   at v = evaluating the joint at the full assignment), the target is the joint at (new blocks before i, v, old after) *)
+Theorem sweep_target_is_joint (joint : list V -> L) :
+  (forall cur i x, nth_error cur i = Some x -> forall v, condf cur i v = joint (upd cur i v)) ->
+  forall e, In e (snd (sweep rs st)) ->
+  forall v, e_tgt e v = joint (firstn (e_blk e) new_cur ++ v :: skipn (S (e_blk e)) (g_cur st)).
+Proof.
+  intros Hc01 e He v.
+  destruct (sweep_target_is_current_conditional e He) as (Hb & Hc & Ht). cbn zeta in *.
+  set (b := e_blk e) in *.
+  destruct (nth_error (g_cur st) b) as [x|] eqn:Ex; [|apply nth_error_None in Ex; fold k in Ex; lia].
+  assert (Hl : length (firstn b new_cur) = b) by (rewrite firstn_length, (proj1 sweep_lengths); lia).
+  assert (Ecur : nth_error (e_cur e) b = Some x).
+  { rewrite Hc, nth_error_app2 by lia. rewrite Hl, Nat.sub_diag. rewrite (firstn_skipn_nth _ _ _ Ex). reflexivity. }
+  rewrite Ht, (Hc01 _ _ _ Ecur v). f_equal. rewrite Hc, (firstn_skipn_nth _ _ _ Ex).
   pose proof (upd_app_mid (firstn b new_cur) (skipn (S b) (g_cur st)) x v) as U. rewrite Hl in U. exact U.
 Qed.
 
@@ -280,7 +305,7 @@ Qed.
 
 (* ... and after the sweep block i holds exactly nst i transitions, its value is the resulting point *)
 Theorem sweep_result i s : nth_error (g_ss st) i = Some s ->
-  let t := cond joint (firstn i new_cur ++ skipn i (g_cur st)) i in
+  let t := condf (firstn i new_cur ++ skipn i (g_cur st)) i in
   let s' := iter_trans i t (nst i) 0 (rs i) (reinit i t s) in
   nth_error new_ss i = Some s' /\ nth_error new_cur i = Some (point s').
 Proof.
@@ -358,7 +383,7 @@ Qed.
 
 Section WithTune.
 Variable tune : nat -> nat -> nat -> St -> St.
-Notation run_ops := (run_ops joint point reinit trans tune nst).
+Notation run_ops := (run_ops condf point reinit trans tune nst).
 
 Definition ops_len (ops : list op) : nat := fold_right (fun o a => op_len o + a) 0 ops.
 
